@@ -90,11 +90,22 @@ check('C02', 'E2-world',
       'DESIGN.md section 7 C02')
 
 
+check('C12', 'E2-world',
+      'Narrow claim (loading clause only): version-skew restarts - C02-style session histories in which every restart writes the Data or the '
+      'DataCollection records with the saver registered for an older protocol version (1..5 / 1..4) and loads them with the '
+      "repository's own loaders; snapshot equality restricted to what that version records; registry shape (versions consecutive from 1, "
+      'default = newest, every saved version has a loader) asserted on the live registries. The rename-table clauses are static facts '
+      'without history, schedule or fault and are not decided by this technique.',
+      'One type is skewed at a time; content an old format cannot express (v1 collection: groups; Data < 4: key joins, uuid-bound element selections) is not generated.',
+      'deterministic simulation: crash-restart with protocol-version skew of the writing process + restricted snapshot-equality oracle',
+      'DESIGN.md section 7 C12')
+
+
 def na(pid, reason):
     NA[pid] = dict(property_id=pid, reason=reason)
 
 PENDING = 'check under construction in this build round (see DESIGN.md section 7); not claimed until its oracle is proven sound on the unchanged tree'
-for pid in [ 'C11', 'C12', 'C14', 'C16', 'C17', 'C18', 'C19']:
+for pid in [ 'C11', 'C14', 'C16', 'C17', 'C18', 'C19']:
     na(pid, PENDING)
 na('C08', 'pure function of region parameters and points: no schedule, clock, fault, shared state or history for a simulator to vary (DESIGN.md section 8)')
 na('C09', 'pure translation roi -> subset state; nothing stateful or faulty involved (DESIGN.md section 8)')
